@@ -149,15 +149,25 @@ def load_theory_cache(filename, username="master"):
         return cache
 
     # Load all required macros and methods for this file.
-    # Make table for this later.
-    if filename == 'logic':
-        from prover import z3wrapper
-    if filename == 'expr':
-        from data import expr
-    if filename == 'real':
-        from data import real
-    if filename == 'hoare':
-        from imperative import imp
+    # Make table for this later. Some of these modules load theories when
+    # they are first imported; this must not disturb the theory being
+    # built by the caller.
+    prev_thy = theory.thy
+    try:
+        if filename == 'logic':
+            from prover import z3wrapper
+        if filename == 'expr':
+            from data import expr
+        if filename == 'real':
+            from data import real
+        if filename == 'hoare':
+            from imperative import imp
+    finally:
+        theory.thy = prev_thy
+
+    if 'timestamp' in cache and timestamp == cache['timestamp']:
+        # Cache was filled while importing
+        return cache
 
     # Load all imported theories
     depend_list = get_import_order(cache['imports'], username)
@@ -170,12 +180,11 @@ def load_theory_cache(filename, username="master"):
                     theory.thy.unchecked_extend(item.get_extension())
 
         # Use this theory to parse the content of current theory
-        cache['timestamp'] = timestamp
         data = load_json_data(filename, username)
-        cache['content'] = []
+        content = []
         for index, item in enumerate(data['content']):
             item = items.parse_item(item)
-            cache['content'].append(item)
+            content.append(item)
             if item.error is None:
                 exts = item.get_extension()
                 theory.thy.unchecked_extend(exts)
@@ -185,6 +194,10 @@ def load_theory_cache(filename, username="master"):
                     else:
                         name = ext.name
                     item_index[username][(ext.ty, name)] = (filename, timestamp, index)
+
+        # Record content and timestamp only when the content is complete
+        cache['content'] = content
+        cache['timestamp'] = timestamp
 
     return cache
 
